@@ -36,6 +36,9 @@ SELF = ("param", "self")
 
 
 def run(check: Check) -> None:
+    from . import wiring
+
+    wiring.p1_process_phases(check)  # every output is defuzzified once per process(), after all rule blocks: "previous" = before the call
     cascade(check)
     setter(check)
     clear(check)
